@@ -78,6 +78,12 @@ type PlanSource = Box<dyn FnMut() -> Option<ExecPlan>>;
 thread_local! {
     static PLAN_SOURCE: RefCell<Option<PlanSource>> = const { RefCell::new(None) };
     static LAST: RefCell<ExecRecord> = RefCell::new(ExecRecord::default());
+    static DECISIONS: std::cell::Cell<usize> = const { std::cell::Cell::new(0) };
+}
+
+/// Scheduling decisions taken so far in the execution running on this OS thread.
+pub fn decisions_so_far() -> usize {
+    DECISIONS.with(|d| d.get())
 }
 
 /// Installs the closure that yields the plan of each next execution on this OS
@@ -205,6 +211,7 @@ impl Scheduler for SimScheduler {
     fn next_task(&mut self, runnable: &[&Task], current: Option<TaskId>, is_yielding: bool) -> Option<TaskId> {
         let plan = self.plan.as_ref().expect("no plan");
         self.rec.decisions += 1;
+        DECISIONS.with(|d| d.set(self.rec.decisions));
         if self.rec.decisions > plan.max_steps {
             // Flag it; the next simrt call of the running task unwinds that task,
             // which ends the execution without force-unwinding the others.
